@@ -15,11 +15,13 @@ LEVEL = "exploration"
 RULE = (
     "kernels of C03 (synthetic latency models incl. zero latencies, composed loads that get a separate load node, chains ending in "
     "the most expensive instruction, ties, kernels without any dependency; curated real vocabulary on shipped models) plus every "
-    "shipped example and test kernel on the models of its ISA. Non-trivial: the longest chain has >= 2 instructions and differs "
+    "shipped example and test kernel on the models of its ISA; a fifth of the synthetic kernels are C06's store/load kernels. Non-trivial: the longest chain has >= 2 instructions and differs "
     "from the path that maximises the sum of edge weights alone, or it starts at a load node; distinct by digest of the kernel text"
 )
 ASSUMPTIONS = [
-    "the graph is taken as observed (its edges are C03/C06's business)",
+    "which instructions are linked is taken as observed (C03/C06's business); the weight of every edge is checked: producer's latency "
+    "without its separately modelled load stage (+ store_to_load_forward_latency on a store->load edge), or the model's index "
+    "write-back latency; load-stage edge = latency - latency without load",
     "the statement leaves open whether the independent load of the chain's last instruction counts: CP_B <= reported <= CP_A (DESIGN.md R-graph)",
 ]
 SHARD_TIMEOUT = {"quick": 600, "thorough": 3600}
